@@ -844,7 +844,10 @@ namespace xsimd
         {
             using batch_type = batch<std::complex<T>, A>;
             using real_batch = typename batch_type::real_batch;
-            real_batch d = cos(2 * z.real()) + cosh(2 * z.imag());
+            // cos(2x) + cosh(2y) == 2 (cos(x)^2 + sinh(y)^2): the sum cancels next to the poles, the squares do not
+            real_batch cx = cos(z.real());
+            real_batch shy = sinh(z.imag());
+            real_batch d = real_batch(2.) * (cx * cx + shy * shy);
             batch_type winf(constants::infinity<real_batch>(), constants::infinity<real_batch>());
             real_batch wreal = sin(2 * z.real()) / d;
             real_batch wimag = sinh(2 * z.imag());
@@ -962,7 +965,10 @@ namespace xsimd
             auto x = z.real();
             auto y = z.imag();
             real_batch two(2);
-            auto d = cosh(two * x) + cos(two * y);
+            // cosh(2x) + cos(2y) == 2 (sinh(x)^2 + cos(y)^2): the sum cancels next to the poles, the squares do not
+            real_batch shx = sinh(x);
+            real_batch cy = cos(y);
+            real_batch d = two * (shx * shx + cy * cy);
             return { sinh(two * x) / d, sin(two * y) / d };
         }
 
